@@ -5,7 +5,21 @@ export GOFLAGS=-mod=mod GOPROXY=off GOTOOLCHAIN=local
 cd /verif
 OUT=$1
 REPO=${VERIF_REPO:-/repo}
-mkdir -p "$OUT/ov"
-[ -x bin/vrewrite ] || (cd tools/rewrite && go1.26 build -o /verif/bin/vrewrite .)
-bin/vrewrite -repo "$REPO" -out "$OUT/ov" -export .=/verif/overlay/plugin_export.go.src
-go1.26 test -c -vet=off -overlay "$OUT/ov/overlay.json" -o "$OUT/worker.test" ./scen/
+mkdir -p "$OUT/ov" /verif/.cache
+[ -x bin/vrewrite ] && [ ! tools/rewrite/main.go -nt bin/vrewrite ] || (cd tools/rewrite && go1.26 build -o /verif/bin/vrewrite .)
+# A copy of the grpc module outside GOMODCACHE (files beneath GOMODCACHE cannot be
+# overlaid): only its root package gets its sync import replaced (engine/vsyncd).
+GRPCVER=$(cd "$REPO" && go1.26 list -m -f '{{.Version}}' google.golang.org/grpc)
+GRPCSRC=$(cd "$REPO" && go1.26 list -m -f '{{.Dir}}' google.golang.org/grpc)
+GRPCDIR=/verif/.cache/grpc@$GRPCVER
+if [ ! -f "$GRPCDIR/.complete" ]; then
+  rm -rf "$GRPCDIR"; mkdir -p "$GRPCDIR"
+  rsync -a --chmod=u+w --exclude='*_test.go' --exclude='/interop' --exclude='/test' --exclude='/benchmark' --exclude='/examples' \
+        --exclude='/stress' --exclude='/testdata' --exclude='/Documentation' --include='*/' --include='*.go' --include='go.mod' --include='go.sum' --exclude='*' \
+        "$GRPCSRC/" "$GRPCDIR/"
+  touch "$GRPCDIR/.complete"
+fi
+cp go.mod "$OUT/go.mod"; cp go.sum "$OUT/go.sum"
+echo "replace google.golang.org/grpc => $GRPCDIR" >> "$OUT/go.mod"
+bin/vrewrite -repo "$REPO" -out "$OUT/ov" -export .=/verif/overlay/plugin_export.go.src -durable "$GRPCDIR" -replace "$GRPCDIR/internal/grpcrand/grpcrand.go=/verif/overlay/grpcrand.go.src"
+go1.26 test -c -vet=off -modfile="$OUT/go.mod" -overlay "$OUT/ov/overlay.json" -o "$OUT/worker.test" ./scen/
